@@ -221,6 +221,21 @@ class ListSet:
                 return True
         return False
 
+    def __len__(self) -> int:
+        return len(self.items)
+
+    def __iter__(self) -> Any:
+        return iter(self.items)
+
+    def discard(self, x: Any) -> None:
+        self.items = [y for y in self.items if not (y == x)]
+
+    remove = discard
+
+    def update(self, xs: Any) -> None:
+        for x in xs:
+            self.add(x)
+
 
 class ListDict:
     def __init__(self) -> None:
